@@ -33,6 +33,7 @@ func runC11(c *Ctx) {
 	Len := P.Method("coalesce", "Queue", "Len")
 	Close := P.Method("coalesce", "Queue", "Close")
 	NewQueue := P.Func("coalesce", "NewQueue")
+	IsClosedM := P.Method("coalesce", "Queue", "IsClosed")
 	fQueue := P.Field("coalesce", "Queue", "queue")
 	fCoal := P.Field("coalesce", "Queue", "coalesced")
 	fIns := P.Field("coalesce", "Queue", "inserted")
@@ -79,6 +80,7 @@ func runC11(c *Ctx) {
 			Watch: func(ev *Ev) bool {
 				return isIns(ev) || strings.HasPrefix(ev.Label, "select:") || strings.HasPrefix(ev.Label, "send:")
 			},
+			Inline: func(fr *Frame, call ssa.CallInstruction, callee *ssa.Function) bool { return callee == IsClosedM },
 		}
 		e.Run(Insert)
 		c.Paths += len(e.Paths)
@@ -195,7 +197,7 @@ func runC11(c *Ctx) {
 		c.Floor("C11.token/close-sites", nClose, 1)
 		e := &PPA{Watch: func(ev *Ev) bool {
 			return strings.HasPrefix(ev.Label, "select:") || ev.Label == "builtin:close" || isLockOp(ev)
-		}}
+		}, Inline: func(fr *Frame, call ssa.CallInstruction, callee *ssa.Function) bool { return callee == IsClosedM }}
 		e.Run(Close)
 		c.Analysed(fnName(Close))
 		c.Paths += len(e.Paths)
